@@ -172,6 +172,19 @@ class World:
         if info.get('raised'):
             conds.add('op_raised')
         conds.add('flavor:' + self.flavor)
+        if oracle == 'wrong_result' and 'C02' not in props:
+            # a wrong answer may come with a stored diagram that is no longer
+            # reduced and ordered: that is C02's own clause, whoever owns the call
+            try:
+                self.touch()
+                for g in self.mgrs:
+                    bad = [d for k, d in self.snapshot(g.idx).problems if k in ('I-struct', 'I-canon')]
+                    if bad:
+                        props = list(props) + ['C02']
+                        detail = f'{detail} [and M{g.idx} is no longer reduced and ordered: {bad[0]}]'
+                        break
+            except Exception:
+                pass
         self.failure = dict(
             oracle=oracle,
             detail=str(detail)[:600],
